@@ -137,8 +137,11 @@ func c08Batch(r *rig.SignerRig, kind string, n int, real bool, viaHandler bool) 
 		req := &pb.SignBeaconAttestationsRequest{}
 		for i := range data {
 			dom := AttDomain(i % 2)
-			d := &rules.SignBeaconAttestationData{Domain: dom, Slot: uint64(1000 + i), CommitteeIndex: uint64(i), BeaconBlockRoot: c08Root(byte(1 + i%200)),
-				Source: &rules.Checkpoint{Epoch: uint64(i % 5), Root: c08Root(byte(i % 7))}, Target: &rules.Checkpoint{Epoch: uint64(10 + i), Root: c08Root(0xff)}}
+			// Every field is shared by some entries that differ elsewhere (neighbours share slot and committee index,
+			// runs of four share the target epoch, ...): a result remembered under part of the data would be reused
+			// for an entry with other data.
+			d := &rules.SignBeaconAttestationData{Domain: dom, Slot: uint64(1000 + i/2), CommitteeIndex: uint64((i / 2) % 4), BeaconBlockRoot: c08Root(byte(1 + i%200)),
+				Source: &rules.Checkpoint{Epoch: uint64(i % 5), Root: c08Root(byte(i % 7))}, Target: &rules.Checkpoint{Epoch: uint64(10 + i/4), Root: c08Root(byte(0xf0 + i%3))}}
 			data[i] = d
 			singleAtt[i] = d
 			items[i] = c08Item{acct: accts[i], what: fmt.Sprintf("attestation batch n=%d entry %d", n, i),
@@ -164,9 +167,10 @@ func c08Batch(r *rig.SignerRig, kind string, n int, real bool, viaHandler bool) 
 		for i := range data {
 			dom := make([]byte, 32)
 			dom[0] = 7
-			dom[5] = byte(i)
-			d := &rules.SignData{Domain: dom, Data: c08Root(byte(1 + i%250))}
-			d.Data[31] = byte(i >> 8)
+			dom[5] = byte(i % 3)
+			// Neighbours share the data and differ in the domain; every third entry shares the domain.
+			d := &rules.SignData{Domain: dom, Data: c08Root(byte(1 + (i/2)%250))}
+			d.Data[31] = byte(i >> 9)
 			data[i] = d
 			singleGen[i] = d
 			items[i] = c08Item{acct: accts[i], what: fmt.Sprintf("multisign n=%d entry %d", n, i), root: model.SigningRoot(b32x(d.Data), dom)}
@@ -403,7 +407,7 @@ func C08(tier string) int {
 	run.Coverage = map[string]any{
 		"evaluations":         cells,
 		"distinct_nontrivial": len(classes),
-		"rule":                "singles: attestation/proposal/generic requests over boundary values of slot, index, epochs, proposer index x 3 root fills x 2 domains x addressing with real BLS keys, verified with the BLS library against a signing root computed by an independent sha256 merkleisation; batches: attestation batches and multisign of every listed size x every listed GOMAXPROCS with distinct per-entry data, mixed addressing, symbolic keys (signature must be byte-equal to the addressed account's signature over the independent signing root; exactly n results and n signatures; signature i is not the one expected at i+1), every fourth size through the gRPC handler; reduced (n, procs) grid repeated with real BLS keys; distinct = request classes and (kind, n, procs) cells",
+		"rule":                "singles: attestation/proposal/generic requests over boundary values of slot, index, epochs, proposer index x 3 root fills x 2 domains x addressing with real BLS keys, verified with the BLS library against a signing root computed by an independent sha256 merkleisation; batches: attestation batches and multisign of every listed size x every listed GOMAXPROCS with per-entry data that is distinct as a whole while every single field (slot, committee index, roots, epochs; data and domain for multisign) is shared between some entries, mixed addressing, symbolic keys (signature must be byte-equal to the addressed account's signature over the independent signing root; exactly n results and n signatures; signature i is not the one expected at i+1), every fourth size through the gRPC handler; reduced (n, procs) grid repeated with real BLS keys; distinct = request classes and (kind, n, procs) cells",
 		"samples":             samples.List(),
 		"exhaustive":          true,
 		"signatures_verified": sigsChecked - int(c08Unsigned.Load()),
